@@ -243,8 +243,133 @@ def pair_programs(prop):
     return progs
 
 
+def triple_programs(prop):
+    """three operands spread over two product spaces ([1, 4] and [3, 2]), requested in orders that
+    differ from the storage order"""
+    if prop not in ("C02", "C06", "C20"):
+        return []
+    rs = np.random.RandomState(3000 + sum(map(ord, prop)))
+    progs = []
+    for order in ((4, 3, 1), (3, 4, 1), (2, 1, 3), (1, 3, 4), (3, 1, 4), (1, 2, 4)):
+        for level in ("matrix-pure", "matrix-mixed"):
+            steps = [superpose(rs, t) for t in (1, 3, 4)]
+            if level == "matrix-pure":
+                steps.insert(0, {"kind": "struct", "what": "set_contraction", "on": False})
+            steps.append({"kind": "struct", "what": "ce_combine", "h": 0, "targets": [1, 4]})
+            steps.append({"kind": "struct", "what": "ce_combine", "h": 0, "targets": [3, 2]})
+            steps.append({"kind": "kraus", "targets": [1, 4], "entry": "ce", "h": 0, "ops": [mj(rand_unitary(rs, 6))]})
+            steps.append({"kind": "kraus", "targets": [3, 2], "entry": "ce", "h": 0, "ops": [mj(rand_unitary(rs, 4))]})
+            if level == "matrix-pure":
+                steps.append({"kind": "struct", "what": "expand", "entry": "ce", "h": 0, "targets": [1]})
+                steps.append({"kind": "struct", "what": "expand", "entry": "ce", "h": 0, "targets": [3]})
+            else:
+                steps.append({"kind": "kraus", "targets": [1], "entry": "state", "ops": [mj(K) for K in rand_kraus(rs, 2, 2)]})
+                steps.append({"kind": "kraus", "targets": [2], "entry": "state", "ops": [mj(K) for K in rand_kraus(rs, 2, 2)]})
+            T = list(order)
+            d = int(np.prod([DIM[t] for t in T]))
+            if prop in ("C02", "C20"):
+                call = {"kind": "trace_out", "targets": T, "entry": "ce", "h": 0}
+            else:
+                call = {"kind": "kraus", "targets": T, "entry": "ce", "h": 0, "ops": [mj(K) for K in rand_kraus(rs, d, 2)]}
+            progs.append({"seed": 7, "contraction": True, "focus": prop, "cell": f"{call['kind']}:|ce|t{'+'.join(map(str, T))}|two-ps|{level}",
+                          "setup": SETUP, "steps": steps + [call]})
+    return progs
+
+
+def envelope_measure_programs(prop):
+    """`env.measure()` on a combined envelope is a known finding (K-C04 / K-C05) for most layouts and
+    levels; the sub-cell that is correct in the repaired tree -- whole envelope, destructive, Fock
+    first, density-matrix level, pure entangled state -- is exercised here so that it stays correct"""
+    if prop not in ("C04", "C05"):
+        return []
+    rs = np.random.RandomState(4000 + sum(map(ord, prop)))
+    progs = []
+    for t in (0, 1):
+        for k in range(3):
+            prep, _ = prepare(rs, t, "env-ff", "matrix-pure")
+            st = {"kind": "measure", "targets": [0, 1], "entry": "env", "sep": False, "destructive": True, "noargs": True}
+            progs.append({"seed": 7 + k, "contraction": True, "focus": prop, "cell": f"measure:whole-envelope|env|t0+1|env-ff|matrix-pure|{k}",
+                          "setup": SETUP, "steps": prep + [st]})
+    return progs
+
+
+def reuse_programs(prop):
+    """one Operation object applied twice: an Expression operation whose context entries depend on the
+    dimension list, on Fock spaces of dimensions (3, 2) and then -- the same object -- on (2, 3)"""
+    if prop not in ("C01", "C03"):
+        return []
+    rs = np.random.RandomState(5000 + sum(map(ord, prop)))
+    progs = []
+    for loc in ("own-own", "ps-same", "ps-diff"):
+        for level in LEVELS:
+            prep = prepare_pair(rs, 0, 2, loc, level)
+            chi = 0.9
+            first = {"kind": "op", "gate": "ExprFock", "targets": [0, 2], "entry": "ce", "h": 0, "params": {"chi": chi}, "reuse": True}
+            second = {"kind": "op", "gate": "ExprFock", "targets": [2, 0], "entry": "ce", "h": 0, "params": {"chi": chi}, "reuse": True}
+            if level == "vector" and loc != "own-own":
+                continue  # K-C01-guard
+            progs.append({"seed": 7, "contraction": True, "focus": prop, "cell": f"op:ExprFock-reused|ce|t0+2|{loc}|{level}",
+                          "setup": SETUP, "steps": prep + [first, second]})
+    return progs
+
+
+def foreign_programs(prop):
+    """requests through an envelope / composite envelope that name a subsystem of *another* envelope /
+    composite which holds exactly the same value as the corresponding member (labels, and equal vectors)"""
+    if prop != "C17":
+        return []
+    rs = np.random.RandomState(6000)
+    setup = {"envs": [{"fock": 1, "pol": "R", "fdim": 2}, {"fock": 1, "pol": "R", "fdim": 2}], "customs": [], "composites": [["e0"], ["e1"]]}
+    progs = []
+    for level in ("label", "vector"):
+        prep = []
+        if level == "vector":
+            prep = [{"kind": "struct", "what": "expand", "entry": "state", "targets": [t]} for t in (0, 1, 2, 3)]
+        for how, calls_ in (("env", ["apply_kraus", "measure_POVM", "apply_operation", "trace_out", "measure", "reorder"]),
+                            ("ce", ["apply_kraus", "measure_POVM", "apply_operation", "trace_out", "measure", "combine", "reorder", "resize_fock"])):
+            for c in calls_:
+                for t in (2, 3):
+                    if c == "resize_fock" and t == 3:
+                        continue
+                    st = {"kind": "invalid", "what": "foreign_member", "how": how, "env": 0, "h": 0, "own": 0, "targets": [t], "call": c,
+                          "ops": [mj(K) for K in rand_kraus(rs, 2, 2)]}
+                    progs.append({"seed": 7, "contraction": False, "focus": prop, "cell": f"invalid:foreign_member:{c}|{how}|t{t}|equal-{level}",
+                                  "setup": setup, "steps": prep + [st]})
+    return progs
+
+
+def twin_programs(prop):
+    """calls that address two *different* Fock spaces holding exactly the same value (label, vector or
+    density matrix), own-stored or in one product space"""
+    if prop != "C18":
+        return []
+    rs = np.random.RandomState(7000)
+    setup = {"envs": [{"fock": 1, "pol": "R", "fdim": 2}, {"fock": 1, "pol": "R", "fdim": 2}], "customs": [], "composites": [["e0", "e1"]]}
+    progs = []
+    for level in ("label", "vector", "matrix"):
+        prep = []
+        if level != "label":
+            prep = [{"kind": "struct", "what": "set_contraction", "on": False}]
+            prep += [{"kind": "struct", "what": "expand", "entry": "state", "targets": [t]} for t in (0, 2)]
+        if level == "matrix":
+            prep += [{"kind": "struct", "what": "expand", "entry": "state", "targets": [t]} for t in (0, 2)]
+        calls_ = [{"kind": "kraus", "targets": [0, 2], "entry": "ce", "h": 0, "ops": [mj(K) for K in rand_kraus(rs, 4, 2)]},
+                  {"kind": "povm", "targets": [0, 2], "entry": "ce", "h": 0, "ops": [mj(K) for K in rand_kraus(rs, 4, 2)], "destructive": False},
+                  {"kind": "op", "gate": "BS", "targets": [0, 2], "entry": "ce", "h": 0, "params": {"eta": 0.6}},
+                  {"kind": "struct", "what": "ce_combine", "h": 0, "targets": [0, 2]},
+                  {"kind": "measure", "targets": [0, 2], "entry": "ce", "h": 0, "sep": True, "destructive": False},
+                  {"kind": "measure", "targets": [2, 0], "entry": "ce", "h": 0, "sep": True, "destructive": True},
+                  {"kind": "op", "gate": "CX", "targets": [1, 3], "entry": "ce", "h": 0},
+                  {"kind": "kraus", "targets": [3, 1], "entry": "ce", "h": 0, "ops": [mj(K) for K in rand_kraus(rs, 4, 2)]}]
+        for c in calls_:
+            progs.append({"seed": 7, "contraction": level == "label", "focus": prop, "cell": f"{c['kind']}:{c.get('gate', c.get('what', ''))}|ce|twins|own|{level}",
+                          "setup": setup, "steps": prep + [c]})
+    return progs
+
+
 def cell_programs(prop, seed=0):
-    return single_programs(prop) + pair_programs(prop)
+    return (foreign_programs(prop) + twin_programs(prop) + single_programs(prop) + pair_programs(prop) + triple_programs(prop) + envelope_measure_programs(prop)
+            + reuse_programs(prop))
 
 
 def single_programs(prop, seed=0):
@@ -269,5 +394,5 @@ def single_programs(prop, seed=0):
 if __name__ == "__main__":
     import sys, collections
     for p in sys.argv[1:]:
-        ps = pair_programs(p)
+        ps = twin_programs(p)
         print(p, len(ps), collections.Counter(x["cell"].split("|")[0] for x in ps))
